@@ -1346,8 +1346,8 @@ class Interp:
                 # macro-generated or `impl Trait` params: take generic-looking names from the MIR signature, in order
                 names = list(names or [])
                 sig = ' '.join(t for _, t in f.args) + ' ' + f.ret
-                for g in re.findall(r'\b(?:impl [\w:<>, ]+|[A-Z]\w*)\b', sig):
-                    if re.fullmatch(r'[A-Z][A-Za-z0-9]{0,2}|__\w+', g) and g not in names and g not in b and g not in ('Self',):
+                for g in generic_names(sig):
+                    if g not in names and g not in b:
                         names.append(g)
             for g, a in zip(names, gargs):
                 b[g] = a
@@ -1480,10 +1480,7 @@ class Interp:
         f = self.p.fns[fname]
         # trait parameters: generic-looking names in the signature that are not the method's own
         sig = ' '.join(t for _, t in f.args) + ' ' + f.ret
-        allg = []
-        for g in re.findall(r'\b([A-Z]\w{0,2})\b', sig):
-            if g not in allg and g != 'Self':
-                allg.append(g)
+        allg = generic_names(sig)
         tparams = [g for g in allg if g not in names][:len(targs)]
         for g, a in zip(tparams, targs):
             b[g] = a
@@ -1493,6 +1490,19 @@ class Interp:
         for g, a in zip(names, gargs):
             b[g] = a
         return b
+
+
+def generic_names(sig):
+    """generic parameter names occurring in a MIR signature, in order of first appearance: short capitalised identifiers (or __X)
+    that are not part of a path (no `::` on either side)"""
+    out = []
+    for m in re.finditer(r'(?<![\w:])([A-Z][A-Za-z0-9]{0,2}|__[A-Z]\w*)(?![\w]|::)', sig):
+        g = m.group(1)
+        if sig[max(0, m.start() - 2):m.start()] == '::':
+            continue
+        if g not in out and g != 'Self':
+            out.append(g)
+    return out
 
 
 class CallCtx:
